@@ -40,7 +40,7 @@ theorem stepThread_threads (o : Ord) (s : Sys) (t : Thread) : (stepThread o s t)
 theorem advance_pc_not_crit (t : Thread) (r : Res) :
     (t.advance r).pc ≠ .write ∧ (t.advance r).pc ≠ .store ∧ (t.advance r).pc ≠ .read := by
   unfold Thread.advance
-  cases h : t.calls.tail with
+  cases h : settle r t.calls.tail with
   | nil => simp
   | cons c rest => cases c <;> simp [pcOfCall]
 
@@ -119,6 +119,11 @@ theorem stepThread_eff (o : Ord) (s : Sys) (t : Thread) : Eff o s t (stepThread 
     split
     · rename_i h2; exact .loadInit hp h2
     · rename_i h2; exact .loadNone hp h2
+  · rename_i rest hp hc
+    split
+    · rename_i h2; exact .loadInit hp h2
+    · rename_i h2; exact .loadNone hp h2
+  · rename_i rest hp hc; exact .read hp
   · rename_i rest hp hc; exact .read hp
   · exact .noop
 
